@@ -80,12 +80,39 @@ func runTwins(t *tape.Tape, cfg sim.Config) (res sim.Result) {
 	if err != nil {
 		panic(err)
 	}
+	// an experimental ImportResolver may bind the import name "t" to ANOTHER, anonymous instance of the
+	// table module, while the registered "t" exists as well: instances created under the resolver are
+	// linked to what the resolver returned (one model table / shared counter per table instance)
+	tmods := []api.Module{tmod}
+	var t2 api.Module
+	if t.Chance(1, 3) {
+		tcm, err := rt.CompileModule(ctx, twinT())
+		if err != nil {
+			panic(err)
+		}
+		if t2, err = rt.InstantiateModule(ctx, tcm, wazero.NewModuleConfig().WithName("")); err != nil {
+			panic(err)
+		}
+		tmods = append(tmods, t2)
+		res.Stat("probe.import_resolver_overrides_a_registered_name", 1)
+	}
 	n := t.Range(2, 4)
 	mods := make([]api.Module, n)
 	own := make([]int32, n)
 	calls := make([]int32, n)
+	tOf := make([]int, n) // which table module each instance is linked to
 	for i := range mods {
-		if mods[i], err = rt.InstantiateModule(ctx, cm, wazero.NewModuleConfig().WithName(fmt.Sprintf("m%d", i))); err != nil {
+		ictx := ctx
+		if t2 != nil && t.Chance(1, 2) {
+			tOf[i] = 1
+			ictx = experimental.WithImportResolver(ctx, func(name string) api.Module {
+				if name == "t" {
+					return t2
+				}
+				return nil
+			})
+		}
+		if mods[i], err = rt.InstantiateModule(ictx, cm, wazero.NewModuleConfig().WithName(fmt.Sprintf("m%d", i))); err != nil {
 			panic(err)
 		}
 		own[i] = int32(i + 1)
@@ -93,8 +120,8 @@ func runTwins(t *tape.Tape, cfg sim.Config) (res sim.Result) {
 			panic(err)
 		}
 	}
-	slots := [6]int{-1, -1, -1, -1, -1, -1}
-	shared := int32(0)
+	slotsOf := [2][6]int{{-1, -1, -1, -1, -1, -1}, {-1, -1, -1, -1, -1, -1}}
+	sharedOf := [2]int32{}
 	var shape []string
 	crossTail := 0
 	for step, nsteps := 0, t.Range(6, 24); step < nsteps && res.Violation == nil; step++ {
@@ -106,7 +133,7 @@ func runTwins(t *tape.Tape, cfg sim.Config) (res sim.Result) {
 				res.Fail("unexpected-trap", "m%d.put(%d): %v", i, s, err)
 				return
 			}
-			slots[s] = i
+			slotsOf[tOf[i]][s] = i
 			res.Logf("m%d.put(%d)", i, s)
 			shape = append(shape, "put")
 		case 1, 2:
@@ -118,6 +145,7 @@ func runTwins(t *tape.Tape, cfg sim.Config) (res sim.Result) {
 			got, err := mods[i].ExportedFunction(fn).Call(ctx, uint64(s), uint64(uint32(x)))
 			res.Logf("m%d.%s(%d,%d)", i, fn, s, x)
 			shape = append(shape, fn)
+			slots := &slotsOf[tOf[i]]
 			if slots[s] < 0 {
 				if err == nil || !strings.Contains(err.Error(), "invalid table access") {
 					res.Fail("view-diverged", "m%d.%s(%d): the slot is empty, got %v %v", i, fn, s, got, err)
@@ -132,7 +160,7 @@ func runTwins(t *tape.Tape, cfg sim.Config) (res sim.Result) {
 				crossTail++
 			}
 			calls[j]++
-			shared++
+			sharedOf[tOf[i]]++
 			if err != nil || int32(uint32(got[0])) != want {
 				res.Fail("view-diverged", "m%d.%s(slot %d, %d): the slot holds the function of m%d (own=%d); got %v %v, the model expects %d (the callee runs on ITS instance's state, the caller continues on its own)", i, fn, s, x, j, own[j], got, errLine(err), want)
 				return
@@ -153,9 +181,11 @@ func runTwins(t *tape.Tape, cfg sim.Config) (res sim.Result) {
 				return
 			}
 		}
-		if got, err := tmod.ExportedFunction("rd_shared").Call(ctx); err != nil || int32(uint32(got[0])) != shared {
-			res.Fail("view-diverged", "after step %d: the shared global is %v %v, the model has %d", step, got, errLine(err), shared)
-			return
+		for ti, tm := range tmods {
+			if got, err := tm.ExportedFunction("rd_shared").Call(ctx); err != nil || int32(uint32(got[0])) != sharedOf[ti] {
+				res.Fail("view-diverged", "after step %d: the shared global of table module %d is %v %v, the model has %d (instances are linked to table modules %v; 1 = the one the import resolver returned)", step, ti, got, errLine(err), sharedOf[ti], tOf)
+				return
+			}
 		}
 		res.Steps++
 	}
